@@ -5,6 +5,7 @@ import (
 	"database/sql/driver"
 	"fmt"
 	"math/rand"
+	"os"
 	"strings"
 
 	"verif/harness/engines/rdcat"
@@ -73,7 +74,13 @@ var shapes = []string{"empty", "one", "one", "few", "few", "few", "batch", "many
 var modes = []string{"ok", "ok", "ok", "ok", "ok", "ok", "err-open", "err-row", "err-row", "cancel-open", "cancel-row"}
 
 func genCase(r *rand.Rand, idx int) *ccase {
+	if r.Intn(12) == 0 && os.Getenv("VERIF_C12_ENDPOINT") == "" {
+		return directed(r, idx)
+	}
 	ep := rdcat.PickEndpoint(r)
+	if only := os.Getenv("VERIF_C12_ENDPOINT"); only != "" && rdcat.ByName(only) != nil { // development aid
+		ep = rdcat.ByName(only)
+	}
 	c := &ccase{Idx: idx, Gen: ep.Gen(r), Client: "normal"}
 	c.DB = dbPlan{Target: []int{0, 0, 0, 1, -1, -1}[r.Intn(6)], Mode: modes[r.Intn(len(modes))], Shape: shapes[r.Intn(len(shapes))]}
 	if r.Intn(4) == 0 {
@@ -93,6 +100,59 @@ func genCase(r *rand.Rand, idx int) *ccase {
 			c.DB.Shape = []string{"few", "batch", "many", "many"}[r.Intn(4)]
 		}
 	}
+	return c
+}
+
+// goSideQueries continue in Go after the SQL stage (parsers without parameters, line_format):
+// the pipelines whose goroutines the leak monitors watch.
+var goSideQueries = []string{
+	`{a="b"} | json`, `{a="b"} | logfmt`, `{a="b"} | json | x="1"`, `{a="b"} | logfmt | level="err" | line_format "{{.msg}}"`, `{a="b"} | json | drop level | label_format z=x`,
+	`{a="b"} | line_format "{{.a}}" |= "b"`, `{a="b"} | json | v > 50`, `{a="b"} | logfmt | n >= 5 and level="info"`,
+	`rate({a="b"} | json [5s])`, `count_over_time({a="b"} | logfmt | level="err" [10s])`, `sum by (x) (count_over_time({a="b"} | json [10s]))`, `bytes_rate({a="b"} | logfmt [1m])`,
+	`sum_over_time({a="b"} | json | unwrap v [10s])`, `avg_over_time({a="b"} | logfmt | unwrap v [10s]) by (x)`, `max_over_time({a="b"} | json | unwrap v [5s]) > 3`, `absent_over_time({a="b"} | json [10s])`,
+	`first_over_time({a="b"} | logfmt | unwrap n [10s])`, `stddev_over_time({a="b"} | json | unwrap v [1m])`, `avg(rate({a="b"} | json [10s])) by (level)`,
+}
+
+// directed builds a case aimed at the mechanisms C12 names: database failing midway, limit
+// reached early, client going away, on a pipeline that runs in Go.
+func directed(r *rand.Rand, idx int) *ccase {
+	q := goSideQueries[r.Intn(len(goSideQueries))]
+	shape := "log-go"
+	if !strings.HasPrefix(q, "{") {
+		shape = "metric-go"
+	}
+	c := &ccase{Idx: idx, Client: "normal"}
+	kv := []string{"query", q, "start", fmt.Sprint(rdcat.FromS * 1e9), "end", fmt.Sprint(rdcat.ToS * 1e9), "step", "5"}
+	scenario := []string{"limit-early", "db-error-midway", "client-leaves", "plain", "limit-early-forward"}[r.Intn(5)]
+	c.DB = dbPlan{Target: 0, Mode: "ok", Shape: []string{"batch", "many", "many"}[r.Intn(3)]}
+	var specials []string
+	switch scenario {
+	case "limit-early", "limit-early-forward":
+		kv = append(kv, "limit", []string{"1", "5", "99", "100", "101"}[r.Intn(5)])
+		if scenario == "limit-early-forward" {
+			kv = append(kv, "direction", "forward")
+		}
+		specials = []string{"limit=small"}
+	case "db-error-midway":
+		kv = append(kv, "limit", "5000")
+		c.DB.Mode = []string{"err-row", "cancel-row"}[r.Intn(2)]
+		c.DB.ErrAt = []int{1, 99, 100, 101, 250, 5000}[r.Intn(6)]
+	case "client-leaves":
+		kv = append(kv, "limit", "5000")
+		c.Client = []string{"abandon-early", "abandon-mid"}[r.Intn(2)]
+		if r.Intn(2) == 0 {
+			c.DB.Mode, c.DB.ErrAt = "hold", []int{1, 150}[r.Intn(2)]
+		}
+	default:
+		kv = append(kv, "limit", "5000")
+	}
+	path := "/loki/api/v1/query_range"
+	ep := "loki.query_range"
+	if r.Intn(4) == 0 {
+		path, ep = "/loki/api/v1/query", "loki.query"
+		kv = []string{"query", q, "time", fmt.Sprint(rdcat.ToS * 1e9), "step", "5", "limit", kv[len(kv)-1]}
+	}
+	c.Gen = rdcat.GenCase{Req: rdcat.Req{Method: "GET", Path: path, RawQuery: rdcat.Q(kv...)}, Endpoint: ep, QueryShape: shape + ":" + scenario, Specials: specials}
 	return c
 }
 
